@@ -1148,6 +1148,38 @@ func c06Phout(c *Ctx) {
 				}
 			}
 		})
+		// the same written with the library: return slices.Insert(digits, len(digits)-3, '.')
+		okInsert := false
+		EachInstr(at, func(in ssa.Instruction) {
+			cl, ok := in.(*ssa.Call)
+			if !ok || !isGenericStd(cl, "slices", "Insert") || len(cl.Call.Args) != 3 || ai == nil || cl.Call.Args[0] != ssa.Value(ai) {
+				return
+			}
+			bo, ok := cl.Call.Args[1].(*ssa.BinOp)
+			if !ok || bo.Op != token.SUB {
+				return
+			}
+			k, isK := ConstInt(bo.Y)
+			lc, isL := bo.X.(*ssa.Call)
+			if !isK || k != 3 || !isL || !IsBuiltinCall(lc, "len") || lc.Call.Args[0] != ssa.Value(ai) {
+				return
+			}
+			one := false
+			SliceAny(cl.Call.Args[2], func(e ssa.Value) bool {
+				if k2, isK2 := ConstInt(e); isK2 && k2 == '.' {
+					one = true
+				}
+				return false
+			})
+			used := false
+			for _, b := range at.Blocks {
+				if r, isR := b.Instrs[len(b.Instrs)-1].(*ssa.Return); isR && len(r.Results) == 1 && r.Results[0] == ssa.Value(cl) {
+					used = true
+				}
+			}
+			okInsert = one && used
+		})
+		okDot = okDot || okInsert
 		c.Check(okDot, "O6.5", key+":dot-three-digits-from-the-end", at.Pos(), "the '.' must be stored at index len(<digits>)-3 (seconds '.' milliseconds)")
 		// shifting loop: dst[i] = dst[i-1] for i from len-1 down to dotIndex+1
 		okShift := false
@@ -1230,6 +1262,7 @@ func c06Phout(c *Ctx) {
 				okShift = true
 			}
 		})
+		okShift = okShift || okInsert
 		c.Check(okShift, "O6.5", key+":last-three-digits-shifted-right", at.Pos(), "the three millisecond digits must be shifted right by one (dst[i] = dst[i-1] for i = len-1 down to dotIndex+1) before the '.' is stored")
 	}
 	// ---- handle
